@@ -18,7 +18,9 @@ CLAIMED = {
         "with the real class on every decision and every deque of generated configurations and arrival sequences; the "
         "property (window bound, over-blocking, override, exemption, state bound) is also evaluated directly on the "
         "implementation's decisions. C18_specific_precedence: a specific-address rule that admits the message ends the "
-        "evaluation for every address, IPv4 or IPv6 (repaired by a fix: commit). Three classes where the current code still "
+        "evaluation for every address, IPv4 or IPv6; C18_cleanup_threshold_covers: cleanup()'s threshold covers every "
+        "per-address rule, so the window bound survives cleanup() for specific addresses too (both repaired by fix: "
+        "commits). Two classes where the current code still "
         "breaks C18 are Lean witnesses + known findings.",
         "Trusted: Lean kernel + propext/Classical.choice/Quot.sound; the correspondence harness; integer injected clock held "
         "constant during one is_limited call; rules with n=0 / empty rule strings treated as configuration errors; "
